@@ -23,6 +23,7 @@ import (
 	"time"
 
 	"com.tuntun.rangers/node/src/common"
+	crypto "com.tuntun.rangers/node/src/eth_crypto"
 	"com.tuntun.rangers/node/src/vm"
 	"github.com/holiman/uint256"
 	"verif/harness/hx"
@@ -488,9 +489,108 @@ func (g *gen) progDeep() ([]byte, []byte, []byte) {
 	return a.bytes(), nil, nil
 }
 
+// AUTH with a real signature (EIP-3074 style), then AUTHCALL on behalf of the signer
+func (g *gen) progAuthLive() ([]byte, []byte, []byte) {
+	r := g.r
+	a := &asm{}
+	var key []byte
+	for {
+		key = r.Bytes(32)
+		if _, err := crypto.ToECDSA(key); err == nil {
+			break
+		}
+	}
+	prv, _ := crypto.ToECDSA(key)
+	authority := crypto.PubkeyToAddress(prv.PublicKey)
+	commit := r.Bytes(32)
+	if r.Chance(1, 4) {
+		commit = make([]byte, 32)
+	}
+	msg := make([]byte, 97)
+	msg[0] = 0x03
+	cid := common.GetChainId(blockNumber).Bytes()
+	copy(msg[33-len(cid):33], cid)
+	copy(msg[45:65], target.Bytes())
+	copy(msg[65:], commit)
+	hash := crypto.Keccak256(msg)
+	signed := hash
+	if r.Chance(1, 2) {
+		signed = crypto.Keccak256([]byte("\x19Ethereum Signed Message:\n32"), hash)
+	}
+	sig, err := crypto.Sign(signed, prv)
+	if err != nil {
+		panic(err)
+	}
+	v := uint64(sig[64])
+	if r.Chance(1, 2) {
+		v += 27
+	}
+	auth := new(big.Int).SetBytes(authority.Bytes())
+	switch r.Intn(9) {
+	case 0: // wrong authority
+		auth = new(big.Int).SetBytes(r.Bytes(20))
+	case 1: // signature over something else
+		sig[5] ^= 0x40
+	case 2: // other recovery id
+		v ^= 1
+	}
+	a.pushU(v).pushU(0).op(0x52)
+	a.pushB(sig[0:32]).pushU(32).op(0x52)
+	a.pushB(sig[32:64]).pushU(64).op(0x52)
+	a.pushB(commit).pushU(96).op(0x52)
+	a.pushU(128).pushU(0).push(auth).op(0xf6)
+	n := 1 + r.Intn(2)
+	for i := 0; i < n; i++ {
+		// AUTHCALL: nonce, gas, addr, value, valueExt, argsOffset, argsLength, retOffset, retLength
+		var to *big.Int
+		switch r.Intn(5) {
+		case 0:
+			to = new(big.Int).SetBytes(auxAddr.Bytes())
+		case 1:
+			to = big.NewInt(int64(1 + r.Intn(18)))
+		case 2:
+			to = new(big.Int).SetBytes(r.Bytes(20))
+		case 3:
+			to = new(big.Int).SetBytes(target.Bytes())
+		default:
+			to = new(big.Int).SetBytes(emptyAcc.Bytes())
+		}
+		a.pushU(uint64(r.Intn(70))).pushU(uint64(128 + r.Intn(64))).pushU(uint64(r.Intn(70))).pushU(uint64(r.Intn(64)))
+		if r.Chance(1, 8) {
+			a.pushU(1) // valueExt != 0
+		} else {
+			a.pushU(0)
+		}
+		if r.Chance(1, 3) {
+			a.pushU(uint64(r.Intn(2000)))
+		} else {
+			a.pushU(0)
+		}
+		a.push(to)
+		if r.Chance(1, 2) {
+			a.op(0x5a)
+		} else {
+			a.pushU(uint64(r.Intn(100000)))
+		}
+		nonce := uint64(i)
+		if r.Chance(1, 5) {
+			nonce = uint64(r.Intn(3))
+		}
+		a.pushU(nonce).op(0xf7)
+		a.op(0x3d) // RETURNDATASIZE
+		a.op(0x01)
+	}
+	a.op(0x5a)
+	a.storeTopAndReturn()
+	return a.bytes(), r.Bytes(r.Intn(20)), g.auxProg()
+}
+
 // AUTH / AUTHCALL and the staking opcodes
 func (g *gen) progCustom() ([]byte, []byte, []byte) {
 	r := g.r
+	if r.Chance(1, 2) {
+		return g.progAuthLive()
+	}
 	a := &asm{}
 	switch r.Intn(6) {
 	case 0: // AUTH on expanded memory with junk signature
@@ -849,13 +949,16 @@ func main() {
 		case k < 17:
 			kind = "calls"
 			code, input, aux = g.progCalls()
-		case k < 19:
+		case k < 18:
 			kind = "create"
 			code, input, aux = g.progCreate()
 		default:
 			kind = "custom"
 			code, input, aux = g.progCustom()
 			cfg |= 1 | 2
+			if gas < 200000 && r.Chance(2, 3) {
+				gas = 1000000
+			}
 		}
 		genKinds[kind]++
 		if r.Chance(1, 12) {
